@@ -208,6 +208,9 @@ func c19Check(r *harness.Run, src string, gapVariants bool) {
 			}})
 		return
 	}
+	if multi && len(toks) >= 4 && r.WantSample() {
+		r.Sample(map[string]interface{}{"input": src, "tokens": seqString(toks), "gap_variants_tried": gapVariants})
+	}
 	if !gapVariants {
 		return
 	}
